@@ -87,8 +87,13 @@ def main(run):
         replay = {"pattern": pattern, "magnitude": mag, "offset": offset, "n": n, "alpha": alpha, "seed": run.shard_seed, "job": j}
         failed = False
         for i, v in enumerate(vals):
+            if i % 50 == 49 and pattern in ("random", "sorted", "heavy-tail"):
+                v = vals[i] = float(w.mean)       # a value exactly equal to the running mean (with polling reads around it)
+                _ = (w.var, w.std)
             w.update(v)
             e.update(v)
+            if i % 50 in (48, 49):
+                _ = (w.var, w.std)
             iv = to_int(v)
             s1 += iv
             s2 += iv * iv
